@@ -48,6 +48,19 @@ Theorem C04_verdict_depends_on_rows_only : forall rules args args',
 Proof. exact verdict_depends_on_rows_only. Qed.
 Print Assumptions C04_verdict_depends_on_rows_only.
 
+(* closure under the dispatched calls the rules themselves make (Auto -> LU/Cholesky/CG/GMRES, pow -> inv,
+   cholesky -> sqrt, slogdet(LU) -> slogdet(Product), factor-wise recursion, operator algebra inside rules): every
+   instance of the hand-written call graph is in the lattice, so it selects a unique rule or is a committed exception *)
+Theorem C04_second_level_total : forall t, In t templates ->
+  exists fs, In fs specs_full /\ fname fs = tcallee t /\
+  forall req opt, In req (prod (treq t)) -> In opt (prod (topt t)) ->
+    admissible fs req opt /\
+    ((exists i, select fs req opt = Unique i)
+     \/ (select fs req opt = Ambiguous /\ is_known KAmbiguous fs req opt)
+     \/ (select fs req opt = NotFound /\ is_known KNotFound fs req opt)).
+Proof. exact second_level_total. Qed.
+Print Assumptions C04_second_level_total.
+
 (* frozen fragment of the pinned tree: A @ Identity is ambiguous among the six dot rules of cola/fns.py:63-90 ... *)
 Theorem C04_pinned_dot_identity_refuted :
   exists args, Forall (fun r => In r [1;2;3]%positive) args /\ resolve pin_le pin_bear pin_dot args = Ambiguous.
